@@ -180,6 +180,8 @@ func TestCheck(t *testing.T) {
 type hspec struct {
 	ID   string   `json:"id"`
 	Path []string `json:"path,omitempty"` // designated node path (nil: applies everywhere)
+	// More: further paths the same option is designated to (none is a prefix of another)
+	More [][]string `json:"more_paths,omitempty"`
 	Mode readMode `json:"mode"`
 	Opt  int      `json:"option"` // index of the WithCallbacks option carrying it
 }
@@ -233,7 +235,23 @@ func specCase(ctx context.Context, rep *mon.Reporter, rng *mon.Rand, cfg mon.Con
 		ndes := 1 + rng.Intn(3)
 		for i := 0; i < ndes && len(us) > 0; i++ {
 			u := us[rng.Intn(len(us))]
-			hs = append(hs, hspec{ID: fmt.Sprintf("D%d@%s", i, strings.Join(u.path, "/")), Path: u.path, Mode: readMode(rng.Intn(3)), Opt: nopts + i})
+			h := hspec{ID: fmt.Sprintf("D%d@%s", i, strings.Join(u.path, "/")), Path: u.path, Mode: readMode(rng.Intn(3)), Opt: nopts + i}
+			// the same option designated to further paths, of any depth, in PRNG order
+			for j, k := 0, rng.Intn(3); j < k; j++ {
+				v := us[rng.Intn(len(us))]
+				ok := !related(v.path, h.Path)
+				for _, m := range h.More {
+					ok = ok && !related(v.path, m)
+				}
+				if ok {
+					h.More = append(h.More, v.path)
+					h.ID += "+" + strings.Join(v.path, "/")
+				}
+			}
+			if len(h.More) > 0 && rng.Bool() {
+				h.Path, h.More[0] = h.More[0], h.Path
+			}
+			hs = append(hs, h)
 		}
 		para := []string{"I", "S", "C", "T"}[rng.Intn(4)]
 		oneRun(ctx, rep, spec, r, in, ref, hs, para, rng.Uint64(), sample && l == 0)
@@ -246,21 +264,30 @@ func specCase(ctx context.Context, rep *mon.Reporter, rng *mon.Rand, cfg mon.Con
 func oneRun(ctx context.Context, rep *mon.Reporter, spec *gspec.GraphSpec, r compose.Runnable[gspec.V, gspec.V], in gspec.V, ref *gspec.RefResult, hs []hspec, para string, seed uint64, sample bool) {
 	rec := &recorder{}
 	byOpt := map[int][]callbacks.Handler{}
-	optPath := map[int][]string{}
+	optPath := map[int][][]string{}
 	var optIdx []int
 	for _, h := range hs {
 		if _, ok := byOpt[h.Opt]; !ok {
 			optIdx = append(optIdx, h.Opt)
 		}
 		byOpt[h.Opt] = append(byOpt[h.Opt], newHandler(h.ID, rec, h.Mode))
-		optPath[h.Opt] = h.Path
+		if h.Path != nil {
+			optPath[h.Opt] = append([][]string{h.Path}, h.More...)
+		}
 	}
 	sort.Ints(optIdx)
 	var opts []compose.Option
 	for _, i := range optIdx {
 		o := compose.WithCallbacks(byOpt[i]...)
-		if p := optPath[i]; p != nil {
-			o = o.DesignateNodeWithPath(compose.NewNodePath(p...))
+		if ps := optPath[i]; ps != nil {
+			var nps []*compose.NodePath
+			for _, p := range ps {
+				nps = append(nps, compose.NewNodePath(p...))
+			}
+			o = o.DesignateNodeWithPath(nps...)
+			if len(ps) > 1 {
+				rep.Count("options_designated_to_several_paths", 1)
+			}
 		}
 		opts = append(opts, o)
 	}
@@ -364,14 +391,18 @@ func oneRun(ctx context.Context, rep *mon.Reporter, spec *gspec.GraphSpec, r com
 		// expected counts. A handler designated to a graph node applies to that graph: the node's own
 		// unit and every unit inside it (it is placed in the context the nested run inherits).
 		target := ""
-		inside := map[string]bool{}
+		inside := map[string]bool{} // units the handler applies to besides `target`
 		if h.Path != nil {
 			target = h.Path[len(h.Path)-1]
-			if n, _ := findNode(spec, target); n != nil && n.Sub != nil {
-				var us []unit
-				units(n.Sub, nil, &us)
-				for _, u := range us {
-					inside[u.name] = true
+			for _, p := range append([][]string{h.Path}, h.More...) {
+				t := p[len(p)-1]
+				inside[t] = true
+				if n, _ := findNode(spec, t); n != nil && n.Sub != nil {
+					var us []unit
+					units(n.Sub, nil, &us)
+					for _, u := range us {
+						inside[u.name] = true
+					}
 				}
 			}
 		}
@@ -423,6 +454,20 @@ func oneRun(ctx context.Context, rep *mon.Reporter, spec *gspec.GraphSpec, r com
 	if sample {
 		rep.Sample(map[string]any{"spec": spec, "handlers": hs, "paradigm": para, "events": len(evs)})
 	}
+}
+
+// related: one path is a prefix of (or equal to) the other
+func related(a, b []string) bool {
+	n := len(a)
+	if len(b) < n {
+		n = len(b)
+	}
+	for i := 0; i < n; i++ {
+		if a[i] != b[i] {
+			return false
+		}
+	}
+	return true
 }
 
 func isPassthrough(g *gspec.GraphSpec, name string) bool {
